@@ -372,3 +372,46 @@ Proof.
   obl ltac:(unfold call_method, genm_copy_module, of_copy; cbn -[pcopy_cache];
             destruct (pcopy_cache c p) as [q [u|ex]]; destruct p; reflexivity).
 Qed.
+
+(* ---- __init__ ------------------------------------------------------------------------------------------------ *)
+Definition init_result (c : cfg) (ok : bool) (init : list (K * V)) : pcache * er :=
+  match ctor_outcome (c_max c) ok with
+  | Some ValueError => (raw_object, ERaise ValueError)      (* raised before anything is set *)
+  | Some ex => (p_empty, ERaise ex)                         (* counters and linked list are set, then TypeError *)
+  | None => of_unit (pinit_cache c init)
+  end.
+
+Lemma genm_init_pairs_ok c ok init :
+  genm_present = true ->
+  call_method c genm_init (params 0 MNone (MBool ok) (MSeq init) MNone) raw_object = init_result c ok init.
+Proof.
+  obl ltac:(unfold call_method, genm_init, init_result, ctor_outcome, pinit_cache, of_unit;
+            cbn -[psetitems Nat.leb]; destruct (c_max c <=? 0); cbn -[psetitems]; [reflexivity|];
+            destruct ok; cbn -[psetitems]; [|reflexivity];
+            destruct init as [|kv rest]; cbn -[psetitems]; [reflexivity|];
+            unfold p_empty, set_ring, with_cache; cbn -[psetitems];
+            match goal with |- context [psetitems c ?q ?l] => destruct (psetitems c q l) as [? [?|?]] end;
+            reflexivity).
+Qed.
+
+Lemma genm_init_mapping_ok c ok init :
+  genm_present = true ->
+  call_method c genm_init (params 0 MNone (MBool ok) (MMap init) MNone) raw_object = init_result c ok init.
+Proof.
+  obl ltac:(unfold call_method, genm_init, init_result, ctor_outcome, pinit_cache, of_unit;
+            cbn -[psetitems Nat.leb]; destruct (c_max c <=? 0); cbn -[psetitems]; [reflexivity|];
+            destruct ok; cbn -[psetitems]; [|reflexivity];
+            destruct init as [|kv rest]; cbn -[psetitems]; [reflexivity|];
+            unfold p_empty, set_ring, with_cache; cbn -[psetitems];
+            match goal with |- context [psetitems c ?q ?l] => destruct (psetitems c q l) as [? [?|?]] end;
+            reflexivity).
+Qed.
+
+(* values=None *)
+Lemma genm_init_none_ok c ok :
+  genm_present = true ->
+  call_method c genm_init (params 0 MNone (MBool ok) MNone MNone) raw_object = init_result c ok [].
+Proof.
+  obl ltac:(unfold call_method, genm_init, init_result, ctor_outcome, pinit_cache, of_unit;
+            cbn -[Nat.leb]; destruct (c_max c <=? 0); cbn; [reflexivity|]; destruct ok; reflexivity).
+Qed.
